@@ -13,6 +13,7 @@ import (
 
 	"github.com/PapaCharlie/go-restli/v2/restli/batchkeyset"
 	"github.com/PapaCharlie/go-restli/v2/restlicodec"
+	"github.com/PapaCharlie/go-restli/v2/restlidata"
 	"verifgen/gen/fam"
 	"verifgen/hx"
 )
@@ -208,6 +209,7 @@ func runC09(cfg *hx.Config) {
 		}
 	}
 	batchIdHistories(cfg, rep)
+	rawRecords(cfg, rep)
 	// query parameters supplied in shuffled orders
 	r := hx.NewRand(cfg.Seed + 77)
 	for k := 0; k < 200; k++ {
@@ -331,5 +333,62 @@ func batchIdHistories(cfg *hx.Config, rep *hx.Report) {
 		check("bytes", eb, g, err)
 		g, err = cs.EncodeQueryParams()
 		check("complex", ec, g, err)
+	}
+}
+
+// RawRecord (restlidata/RawRecord.go): nested Go maps serialise to the same bytes every time, with ascending keys
+func rawRecords(cfg *hx.Config, rep *hx.Report) {
+	r := hx.NewRand(cfg.Seed + 313)
+	var gen func(depth int) interface{}
+	gen = func(depth int) interface{} {
+		switch k := r.Intn(6); {
+		case k == 0 && depth > 0:
+			m := map[string]interface{}{}
+			for i := 0; i < 2+r.Intn(5); i++ {
+				m[genString(r, true)] = gen(depth - 1)
+			}
+			return m
+		case k == 1 && depth > 0:
+			var a []interface{}
+			for i := 0; i < r.Intn(4); i++ {
+				a = append(a, gen(depth-1))
+			}
+			return a
+		case k == 2:
+			return int64(r.Intn(1000)) - 500
+		case k == 3:
+			return float64(r.Intn(100)) / 4
+		case k == 4:
+			return r.Bool()
+		default:
+			return genString(r, true)
+		}
+	}
+	n := 150
+	if cfg.Thorough() {
+		n = 3000
+	}
+	for i := 0; i < n; i++ {
+		rec := restlidata.RawRecord{}
+		for k := 0; k < 3+r.Intn(6); k++ {
+			rec[genString(r, true)] = gen(3)
+		}
+		var first string
+		for rep2 := 0; rep2 < 5; rep2++ {
+			w := restlicodec.NewCompactJsonWriter()
+			if err := rec.MarshalRestLi(w); err != nil {
+				break
+			}
+			out := w.Finalize()
+			if rep2 == 0 {
+				first = out
+				if !jsonKeysAscending(out) {
+					rep.Fail("canon:raw-record-keys-not-ascending", "RawRecord keys are not in ascending byte order", "v2/restlidata/RawRecord.go:writeInterface", map[string]interface{}{"out": out}, nil)
+				}
+			} else if out != first {
+				rep.Fail("canon:raw-record-differs", "two serialisations of the same RawRecord differ", "v2/restlidata/RawRecord.go:writeInterface", map[string]interface{}{"a": first, "b": out}, nil)
+			}
+		}
+		rep.Evaluations++
 	}
 }
